@@ -85,6 +85,10 @@ struct vs_alarm { char rule[32]; char what[200]; int fd; int ep; const char *api
 int vs_alarms_take(struct vs_alarm *out, int max);
 void vs_set_watch(bool c05_waits, bool c08_strays);
 
+/* called once, from inside the next fopen() made within a scope whose path ends with `suffix` (before the file is opened): lets a test
+ * change files between two reads of one library call */
+void vs_set_fopen_hook(const char *suffix, void (*fn)(const char *path, void *arg), void *arg);
+
 /* true while timerfds armed by XCM exist (set through timerfd_settime) */
 int vs_armed_timers(void);
 
